@@ -1268,7 +1268,16 @@ class Mailbox:
         notifications.append(f"* {num_msgs} EXISTS\r\n")
         notifications.append(f"* {num_recent} RECENT\r\n")
         for c in self.clients.values():
-            await c.client.push(*notifications)
+            # Keep what this client is told in order: if it still has
+            # notifications waiting to be sent (EXPUNGEs that must not be sent
+            # during its FETCH, STORE or SEARCH, say) then the new message
+            # count goes behind them. Sending it ahead of a queued EXPUNGE
+            # would leave the client with the wrong number of messages.
+            #
+            if c.pending_notifications and not c.idling:
+                c.pending_notifications.extend(notifications)
+            else:
+                await c.client.push(*notifications)
 
         self.num_msgs = num_msgs
         self.num_recent = num_recent
